@@ -83,7 +83,7 @@ FAILING = ["1 / 0", "7 % 0", "1.5 / 0", "[1, 2][5]", "[1][-1]", "map {1: 2}[3]",
 FILLER = ["", "# a comment", "// another comment", "let k{n} = {n};", "k0 = k0 + 1;", "fn unused{n}(a) {{ return a / 0; }}", "let w{n} = [1, 2, 3];",
           "let m{n} = map {{1: 2}};", "if k0 > 100 {{ k0 = 0; }}", "let q{n} = 0; while q{n} < 3 {{ q{n} = q{n} + 1; }}", "{{ let inner{n} = 1; }}", "push(obs, k0);",
           # literals that cover several lines (the language has no escapes: this is how a newline is written)
-          "let s{n} = \"two\nlines\";", "let t{n} = \"a\n\n\nb\";", "let c{n} = '\n';", "push(obs, len(\"x\ny\"));"]
+          "let s{n} = \"two\nlines\";", "let t{n} = \"a\n\n\nb\";", "let c{n} = '\n';", "push(obs, len(\"x\ny\"));", "let b{n} = b'\n';"]
 
 
 def build(rng):
